@@ -744,6 +744,7 @@ class WorkerPool:
         tqdm_manager_owner = False
 
         imap_iterator = None
+        completed = False
         try:
             if self._map_running:
                 self._worker_comms.signal_exception_thrown(MAIN_PROCESS)
@@ -841,6 +842,7 @@ class WorkerPool:
                     # Wait for the progress bar to finish, before we clean it up
                     if progress_bar:
                         self._worker_comms.wait_until_progress_bar_is_complete()
+                    completed = True
 
                 except KeyboardInterrupt:
                     # A KeyboardInterrupt raised by a user function also ends up here, after it has been handled (the
@@ -850,6 +852,13 @@ class WorkerPool:
                     self._handle_exception()
 
         finally:
+            # When we didn't make it to the end without having terminated already (e.g., the generator was closed before
+            # all results were obtained), workers can still be busy with tasks of this call that nobody is waiting for
+            # anymore, and the order mode of this call would leak into the next one
+            if not completed:
+                self.terminate()
+                self._worker_comms.clear_keep_order()
+
             if tqdm_manager_owner:
                 tqdm.set_lock(original_tqdm_lock)
                 TqdmManager.stop_manager()
